@@ -179,7 +179,7 @@ fn check_braid(run: &Run, strands: usize, w: &[i32]) {
 fn main() {
     let run = Run::new("C18", "exploration");
     let th = run.thorough();
-    let nmax = if th { 4 } else { 3 };
+    let nmax = 4;
     let fam = planar_family(nmax);
     run.add("diagrams", fam.len() as u64);
     run.par_for(fam.len(), |i| {
